@@ -213,6 +213,8 @@ def byte_lists():
             ls.append([0] * n)
             ls.append([255] * n)
             ls.append([(17 * i + 3) % 256 for i in range(n)])
+        # strings as lists of scalar values: 2-, 3-, 4-byte characters and mixtures (after the byte strings)
+        ls += [[233], [0x20AC], [0x1F600], [97, 233, 0x20AC, 0x1F600], [233, 233], [0x20AC, 98]]
         ls.append([(17 * i + 3) % 256 for i in range(15)] + [9])         # differs from the 16-list at the last position
         ls.append([4] + [(17 * i + 3) % 256 for i in range(1, 16)])        # ... at the first position
         seen, out = set(), []
